@@ -50,8 +50,8 @@ static Problem make_problem(Rng& g)
 	}
 	else if(fam == 1)
 	{	// power laws x^p - c on brackets spanning many decades
-		static const double ps[] = {0.5, 2.0, 3.0, 5.0, 7.0, 12.0, 20.0, 1.5, 0.25};
-		double p				 = ps[g.range(0, 8)];
+		static const double ps[] = {0.5, 2.0, 3.0, 5.0, 7.0, 12.0, 20.0, 1.5, 0.25, 0.05};
+		double p				 = ps[g.range(0, 9)];
 		double r				 = g.logu(1e-4, 1e3);
 		double c				 = std::pow(r, p);
 		P.fam					 = "power";
@@ -273,8 +273,19 @@ int main(int argc, char** argv)
 			for(int i = 0; i < batch; i++)
 			{
 				Problem P  = make_problem(h);
+				if(h.coin(0.12))
+				{	// the same function in other units: values of order 1e-200 ... 1e200 (products of two values leave the double range)
+					double sc = std::pow(10.0, (h.coin() ? 1 : -1) * h.uni(100.0, 200.0));
+					auto f0	  = P.f;
+					double l0 = sc * f0(P.lo), h0 = sc * f0(P.hi);
+					if(std::isfinite(l0) && std::isfinite(h0) && std::fabs(l0) > 1e-290 && std::fabs(h0) > 1e-290)
+					{
+						P.f	  = [f0, sc](double x) { return sc * f0(x); };
+						P.fam = P.fam + "-scaled";
+					}
+				}
 				double flo = P.f(P.lo), fhi = P.f(P.hi);
-				if(!(P.lo < P.hi) || std::isnan(flo) || std::isnan(fhi) || flo * fhi > 0.0 || std::isinf(flo) || std::isinf(fhi))
+				if(!(P.lo < P.hi) || std::isnan(flo) || std::isnan(fhi) || sgn(flo) * sgn(fhi) > 0 || std::isinf(flo) || std::isinf(fhi))
 					continue;	// not a meaningful request (rejections are exercised below and in C10)
 				double width = P.hi - P.lo;
 				double rootscale = P.roots.empty() ? std::max(std::fabs(P.lo), std::fabs(P.hi)) : std::fabs(P.roots[0]);
